@@ -640,111 +640,6 @@ theorem foldr_consMember_inv (g : PropDef → Outcome (Option (Bytes × Bytes ×
           obtain ⟨es, hes, rfl⟩ := ih ms' hr
           exact ⟨(k, kr, t) :: es, Or.inr ⟨_, _, rfl, hg, hes⟩, rfl⟩
 
-def keysOf : List PropDef → List Nat → List Nat
-  | [], S => S
-  | p :: ps, S =>
-    match p.path with
-    | [k] => keysOf ps (k :: S)
-    | _ => keysOf ps S
-
-theorem keysOf_cons_single (p : PropDef) (ps : List PropDef) (S : List Nat) (k : Nat)
-    (hp : p.path = [k]) : keysOf (p :: ps) S = keysOf ps (k :: S) := by
-  rw [keysOf]; rw [hp]
-
-theorem mem_keysOf (ps : List PropDef) (S : List Nat) (p : PropDef) (k : Nat) (hp : p ∈ ps)
-    (hk : p.path = [k]) : k ∈ keysOf ps S := by
-  induction ps generalizing S with
-  | nil => cases hp
-  | cons q qs ih =>
-    have mono : ∀ (l : List PropDef) (T : List Nat) (x : Nat), x ∈ T → x ∈ keysOf l T := by
-      intro l
-      induction l with
-      | nil => intro T x hx; exact hx
-      | cons a t iht =>
-        intro T x hx
-        unfold keysOf
-        split
-        · exact iht _ x (List.mem_cons_of_mem _ hx)
-        · exact iht _ x hx
-    rcases List.mem_cons.mp hp with rfl | hp'
-    · unfold keysOf; rw [hk]; exact mono qs _ k List.mem_cons_self
-    · unfold keysOf
-      split
-      · exact ih _ hp'
-      · exact ih _ hp'
-
-theorem decObjMembers_props (c : Cfg) (props : List PropDef) (fs : Fields)
-    (hnames : (props.map (·.jsonName)).Nodup) (hgrp : ∀ p ∈ props, p.group = none)
-    (hsorted : asorted fs = true)
-    (g : PropDef → Outcome (Option (Bytes × Bytes × PTree)))
-    (hg_none : ∀ p ∈ props, g p = .ok none → ∃ k, p.path = [k] ∧ aget k fs = none)
-    (hg_some : ∀ p ∈ props, ∀ e, g p = .ok (some e) → ∃ k v lit t, p.path = [k] ∧
-      e = (p.jsonName, lit, t) ∧ aget k fs = some v ∧ Dec c p.field v t ∧
-      (p.pres == .imp && v.isZero) = false ∧ v.isEmptyColl = false) :
-    ∀ (ps : List PropDef) (es : List (Bytes × Bytes × PTree)) (st : PS) (S : List Nat),
-      AllEncProps g ps es → (∀ p ∈ ps, p ∈ props) → (ps.map (·.jsonName)).Nodup →
-      (ps.map (·.path)).Nodup → (∀ p ∈ ps, p.jsonName ∉ st.seen) →
-      (∀ p ∈ ps, ∀ k, p.path = [k] → k ∉ S) → st.m = filterKeys S fs →
-      ∃ seen', decObjMembers c props (membersOf es) st =
-        .ok ({ m := filterKeys (keysOf ps S) fs, seen := seen' }, .closed) := by
-  intro ps
-  induction ps with
-  | nil =>
-    intro es st S h _ _ _ _ _ hm
-    simp only [AllEncProps] at h; subst h
-    refine ⟨st.seen, ?_⟩
-    simp [membersOf, decObjMembers, keysOf, ← hm]
-  | cons p ps ih =>
-    intro es st S h hsub hnd hpd hseen hS hm
-    have hpm : p ∈ props := hsub p List.mem_cons_self
-    simp only [List.map_cons, List.nodup_cons] at hnd hpd
-    rcases h with ⟨hgn, hrest⟩ | ⟨e, es', rfl, hgs, hrest⟩
-    · -- property not set: no member
-      obtain ⟨k, hpk, hag⟩ := hg_none p hpm hgn
-      have := ih es st (k :: S) hrest (fun q hq => hsub q (List.mem_cons_of_mem _ hq)) hnd.2 hpd.2
-        (fun q hq => hseen q (List.mem_cons_of_mem _ hq))
-        (by
-          intro q hq k' hk'
-          simp only [List.mem_cons, not_or]
-          refine ⟨?_, hS q (List.mem_cons_of_mem _ hq) k' hk'⟩
-          intro e; subst e
-          exact hpd.1 (List.mem_map.mpr ⟨q, hq, by rw [hk', hpk]⟩))
-        (by rw [filterKeys_cons_absent S fs k hag]; exact hm)
-      obtain ⟨seen', hs⟩ := this
-      refine ⟨seen', ?_⟩
-      rw [keysOf_cons_single p ps S k hpk]; exact hs
-    · -- property set: one member, decoded by `Dec.prop`
-      obtain ⟨k, v, lit, t, hpk, rfl, hag, hdec, hz, hec⟩ := hg_some p hpm e hgs
-      have hkS : k ∉ S := hS p List.mem_cons_self k hpk
-      have hstep : decProp c props p t st =
-          .ok { m := filterKeys (k :: S) fs, seen := p.jsonName :: st.seen } := by
-        rw [hdec.prop props p k st rfl hpk (hseen p List.mem_cons_self)
-          (by rw [hm]; exact aget_filterKeys_absent S fs k hkS)
-          (groupBusy_none props p st.m (hgrp p hpm))]
-        rw [updPath_single props p k v st.m hpk, hgrp p hpm, clearGroup_none,
-          setLeaf_store _ _ _ _ hz hec, hm, aset_filterKeys S fs k v hsorted hag hkS]
-      have := ih es' { m := filterKeys (k :: S) fs, seen := p.jsonName :: st.seen } (k :: S) hrest
-        (fun q hq => hsub q (List.mem_cons_of_mem _ hq)) hnd.2 hpd.2
-        (by
-          intro q hq
-          simp only [List.mem_cons, not_or]
-          refine ⟨?_, hseen q (List.mem_cons_of_mem _ hq)⟩
-          intro e
-          exact hnd.1 (List.mem_map.mpr ⟨q, hq, e⟩))
-        (by
-          intro q hq k' hk'
-          simp only [List.mem_cons, not_or]
-          refine ⟨?_, hS q (List.mem_cons_of_mem _ hq) k' hk'⟩
-          intro e; subst e
-          exact hpd.1 (List.mem_map.mpr ⟨q, hq, by rw [hk', hpk]⟩))
-        rfl
-      obtain ⟨seen', hs⟩ := this
-      refine ⟨seen', ?_⟩
-      simp only [membersOf]
-      rw [decObjMembers, findProp_self props hnames p hpm]
-      simp only [hstep]
-      rw [keysOf_cons_single p ps S k hpk]; exact hs
-
 end J5V.Codec
 
 namespace J5V.Codec
@@ -772,7 +667,7 @@ theorem valOk_enum (env : Env) (O : Oracle) (ref : String) (v : PVal)
 theorem valOk_object (env : Env) (O : Oracle) (ref : String) (v : PVal)
     (h : valOk env O (.object ref) v = true) :
     ∃ fs props, v = .msg fs ∧ env.find ref = some (.object props) ∧ asorted fs = true ∧
-      fieldsOk env O props fs = true := by
+      fieldsOk env O props fs = true ∧ groupsOk props fs = true ∧ exposedOk env props fs = true := by
   cases v <;> simp only [valOk, Bool.false_eq_true] at h
   case msg fs =>
     cases hf : env.find ref with
@@ -781,7 +676,7 @@ theorem valOk_object (env : Env) (O : Oracle) (ref : String) (v : PVal)
       cases r <;> simp only [hf, Bool.false_eq_true] at h
       case object props =>
         simp only [Bool.and_eq_true] at h
-        exact ⟨fs, props, rfl, rfl, h.1, h.2⟩
+        exact ⟨fs, props, rfl, rfl, h.1.1.1, h.1.1.2, h.1.2, h.2⟩
   all_goals (cases h)
 
 theorem valOk_oneof (env : Env) (O : Oracle) (ref : String) (v : PVal)
@@ -839,20 +734,51 @@ theorem aget_mem {α : Type} (k : Nat) (v : α) (m : List (Nat × α)) (h : aget
     · rw [if_pos hk] at h; cases h; subst hk; exact List.mem_cons_self
     · rw [if_neg hk] at h; exact List.mem_cons_of_mem _ (ih h)
 
+theorem propsUnder_nil (k : Nat) (props : List PropDef) (h : ∀ p ∈ props, p.path.length ≤ 1) :
+    propsUnder k props = [] := by
+  unfold propsUnder
+  apply List.filterMap_eq_nil_iff.mpr
+  intro p hp
+  have := h p hp
+  split
+  · next k' k2 r heq => rw [heq] at this; simp at this
+  · rfl
+
+theorem fieldsOk_cons (env : Env) (O : Oracle) (props : List PropDef) (k : Nat) (v : PVal)
+    (rest : Fields) :
+    fieldsOk env O props ((k, v) :: rest) =
+      ((match leafProp env props k with
+        | some p => valOk env O p.field v && !(p.pres == Pres.imp && v.isZero)
+        | none =>
+          match v with
+          | PVal.msg sub =>
+            !sub.isEmpty && asorted sub && !(propsUnder k props).isEmpty &&
+              fieldsOk env O (propsUnder k props) sub
+          | _ => false) && fieldsOk env O props rest) := by
+  conv => lhs; rw [fieldsOk.eq_def]
+  rfl
+
+/-- without flattened objects every stored field is a leaf owned by a property (directly or
+through an exposed oneof) -/
 theorem fieldsOk_mem (env : Env) (O : Oracle) (props : List PropDef) (fs : Fields)
+    (hflat : ∀ p ∈ props, p.path.length ≤ 1)
     (h : fieldsOk env O props fs = true) : ∀ k v, (k, v) ∈ fs →
-      ∃ p, props.find? (fun q => q.path == [k]) = some p ∧ valOk env O p.field v = true ∧
+      ∃ p, leafProp env props k = some p ∧ valOk env O p.field v = true ∧
         (p.pres == .imp && v.isZero) = false := by
   induction fs with
   | nil => intro k v hm; cases hm
   | cons kv t ih =>
     obtain ⟨k', v'⟩ := kv
-    simp only [fieldsOk, Bool.and_eq_true] at h
+    rw [fieldsOk_cons] at h
+    simp only [Bool.and_eq_true] at h
     intro k v hm
     rcases List.mem_cons.mp hm with heq | hm'
     · cases heq
-      cases hf : props.find? (fun q => q.path == [k']) with
-      | none => simp [hf] at h
+      cases hf : leafProp env props k' with
+      | none =>
+        simp only [hf] at h
+        have hnil := propsUnder_nil k' props hflat
+        cases v' <;> simp [hnil] at h
       | some p =>
         simp only [hf, Bool.and_eq_true] at h
         refine ⟨p, rfl, h.1.1, ?_⟩
@@ -861,429 +787,5 @@ theorem fieldsOk_mem (env : Env) (O : Oracle) (props : List PropDef) (fs : Field
         | false => rfl
         | true => simp [hx] at this
     · exact ih h.2 k v hm'
-
-end J5V.Codec
-
-namespace J5V.Codec
-open J5V.Go J5V.Json
-
-/-! ## the induction on the encoder's fuel -/
-
-/-- the facts the structure-level round trip establishes at encoder fuel `f` -/
-structure RT (c : Cfg) (f : Nat) : Prop where
-  val : ∀ fld v t, fieldSimple fld = true → valOk c.env c.O fld v = true →
-    encValue c.env c.O f fld v = .ok t → Dec c fld v t
-  obj : ∀ props fs t, rootSimple (.object props) = true →
-    (∀ p ∈ props, isValidUtf8 p.jsonName = true) → asorted fs = true →
-    fieldsOk c.env c.O props fs = true → encObjectBody c.env c.O f props fs = .ok t →
-    ∃ ms S, t = .obj ms ∧
-      decObjMembers c props ms { m := [], seen := [] } = .ok ({ m := fs, seen := S }, .closed)
-  one : ∀ ops fs t, rootSimple (.oneof ops) = true →
-    (∀ p ∈ ops, isValidUtf8 p.jsonName = true) → asorted fs = true →
-    fieldsOk c.env c.O ops fs = true → fs.length ≤ 1 → encOneofBody c.env c.O f ops fs = .ok t →
-    ∃ ms st' found ct, t = .obj ms ∧
-      decOneofMembers c ops ms { m := [], seen := [] } [] none = .ok (st', found, ct, .closed) ∧
-      st'.m = fs ∧ oneofPost ops found ct fs = .ok none
-
-theorem optionByNumber_mem (opts : List (Bytes × Int)) (n : Int) (name : Bytes)
-    (h : optionByNumber opts n = some name) : ∃ o ∈ opts, o.1 = name := by
-  unfold optionByNumber at h
-  cases hf : opts.find? (fun o => o.2 == n) with
-  | none => simp [hf] at h
-  | some o =>
-    simp only [hf, Option.map_some, Option.some.injEq] at h
-    exact ⟨o, List.mem_of_find?_eq_some hf, h⟩
-
-theorem RT_val (c : Cfg) (hs : c.env.simple = true) (L : OracleLaws c.O) (f : Nat)
-    (ih : ∀ f' < f + 1, RT c f') :
-    ∀ fld v t, fieldSimple fld = true → valOk c.env c.O fld v = true →
-      encValue c.env c.O (f + 1) fld v = .ok t → Dec c fld v t := by
-  intro fld v t hfs hok henc
-  cases fld with
-  | scalar k =>
-    simp only [encValue] at henc
-    exact Dec_scalar c L k v t (valOk_scalar _ _ k v hok) henc
-  | «enum» ref =>
-    obtain ⟨n, pfx, opts, rfl, hfind, hsome⟩ := valOk_enum _ _ ref v hok
-    simp only [encValue, hfind] at henc
-    cases hn : optionByNumber opts n with
-    | none => simp [hn] at hsome
-    | some name =>
-      simp only [hn] at henc
-      have hroot := find_rootSimple c.env hs ref _ hfind
-      simp only [rootSimple, Bool.and_eq_true, decide_eq_true_eq] at hroot
-      obtain ⟨o, hom, hon⟩ := optionByNumber_mem opts n name hn
-      have hutf : isValidUtf8 name = true := by
-        have := List.all_eq_true.mp hroot.2 o hom
-        rw [← hon]; exact this
-      obtain ⟨lit, hl⟩ := strNode_ok name hutf
-      rw [hl] at henc; cases henc
-      exact Dec_enum c ref pfx opts n name lit hfind (enum_roundtrip pfx opts hroot.1.1 n name hn)
-  | object ref =>
-    obtain ⟨fs, props, rfl, hfind, hsort, hfok⟩ := valOk_object _ _ ref v hok
-    simp only [encValue, hfind] at henc
-    obtain ⟨ms, S, rfl, hdec⟩ := (ih f (Nat.lt_succ_self f)).obj props fs t
-      (find_rootSimple c.env hs ref _ hfind)
-      (find_names_utf8 c.env hs ref props (Or.inl hfind)) hsort hfok henc
-    exact Dec_object c ref props fs ms S hfind hdec
-  | oneof ref =>
-    obtain ⟨fs, ops, rfl, hfind, hsort, hfok, hlen⟩ := valOk_oneof _ _ ref v hok
-    simp only [encValue, hfind] at henc
-    obtain ⟨ms, st', found, ct, rfl, hdec, hm, hpost⟩ := (ih f (Nat.lt_succ_self f)).one ops fs t
-      (find_rootSimple c.env hs ref _ hfind)
-      (find_names_utf8 c.env hs ref ops (Or.inr hfind)) hsort hfok hlen henc
-    exact Dec_oneof c ref ops fs ms st' found ct hfind hdec hm hpost
-  | any pb => simp [fieldSimple] at hfs
-  | array item =>
-    obtain ⟨xs, rfl, hlok⟩ := valOk_array _ _ item v hok
-    have hi : itemSimple item = true := by simpa [fieldSimple] using hfs
-    simp only [encValue] at henc
-    have henc' : (match xs.foldr (fun x acc => consElem (encValue c.env c.O f item x) acc)
-        (.ok (.nil .closed)) with
-        | .ok es => Outcome.ok (PTree.arr es)
-        | .err e => .err e
-        | .panic w => .panic w) = .ok t := by
-      cases item <;> simp only [itemSimple, Bool.false_eq_true] at hi <;> exact henc
-    cases hr : xs.foldr (fun x acc => consElem (encValue c.env c.O f item x) acc)
-        (.ok (.nil .closed)) with
-    | err e => simp [hr] at henc'
-    | panic w => simp [hr] at henc'
-    | ok es =>
-      simp only [hr] at henc'; cases henc'
-      obtain ⟨ts, hall, rfl⟩ := foldr_consElem_inv _ xs es hr
-      have hitem : fieldSimple item = true := by cases item <;> simp [itemSimple] at hi <;> rfl
-      have hdec := decElems_all c item hi _ xs ts []
-        (fun x hx t' ht' => (ih f (Nat.lt_succ_self f)).val item x t' hitem
-          (listOk_mem _ _ item xs hlok x hx) ht') hall
-      simp only [List.nil_append] at hdec
-      exact Dec_array c item hi xs ts hdec
-  | map item =>
-    obtain ⟨kvs, rfl, hmok⟩ := valOk_map _ _ item v hok
-    have hi : itemSimple item = true := by simpa [fieldSimple] using hfs
-    simp only [encValue] at henc
-    have henc' : (match kvs.foldr (fun kv acc =>
-          consMember (member kv.1 (encValue c.env c.O f item kv.2)) acc) (.ok (.nil .closed)) with
-        | .ok ms => Outcome.ok (PTree.obj ms)
-        | .err e => .err e
-        | .panic w => .panic w) = .ok t := by
-      cases item <;> simp only [itemSimple, Bool.false_eq_true] at hi <;> exact henc
-    cases hr : kvs.foldr (fun kv acc =>
-          consMember (member kv.1 (encValue c.env c.O f item kv.2)) acc) (.ok (.nil .closed)) with
-    | err e => simp [hr] at henc'
-    | panic w => simp [hr] at henc'
-    | ok ms =>
-      simp only [hr] at henc'; cases henc'
-      obtain ⟨es, hall, rfl⟩ := foldr_consMember_map_inv _ kvs ms hr
-      have hitem : fieldSimple item = true := by cases item <;> simp [itemSimple] at hi <;> rfl
-      have hdec := decMapMembers_all c item hi _
-        (fun x t' hxok ht' => (ih f (Nat.lt_succ_self f)).val item x t' hitem hxok ht')
-        kvs es [] [] hall hmok (fun _ _ => rfl)
-      simp only [List.nil_append] at hdec
-      exact Dec_map c item hi kvs es hdec
-
-theorem propSimple_path (p : PropDef) (h : propSimple p = true) : ∃ k, p.path = [k] := by
-  simp only [propSimple, Bool.and_eq_true, beq_iff_eq] at h
-  cases hp : p.path with
-  | nil => simp [hp] at h
-  | cons k t =>
-    cases t with
-    | nil => exact ⟨k, rfl⟩
-    | cons k2 t2 => simp [hp] at h
-
-theorem propSimple_field (p : PropDef) (h : propSimple p = true) : fieldSimple p.field = true := by
-  simp only [propSimple, Bool.and_eq_true] at h; exact h.2
-
-/-- what one property contributes to an object body, as `encObjectBody` computes it -/
-def objMember (env : Env) (O : Oracle) (f : Nat) (props : List PropDef) (fs : Fields) (p : PropDef) :
-    Outcome (Option (Bytes × Bytes × PTree)) :=
-  match findProp props p.jsonName with
-  | none => .err "no property"
-  | some q =>
-    match encField env O f q fs with
-    | .ok none => .ok none
-    | .ok (some t) => member q.jsonName (.ok t)
-    | .err e => .err e
-    | .panic w => .panic w
-
-theorem objMember_inv (c : Cfg) (hs : c.env.simple = true) (L : OracleLaws c.O) (f : Nat)
-    (ih : ∀ f' < f + 1, RT c f') (props : List PropDef) (fs : Fields)
-    (hnames : (props.map (·.jsonName)).Nodup) (hpaths : (props.map (·.path)).Nodup)
-    (hsimple : ∀ p ∈ props, propSimple p = true)
-    (hfok : fieldsOk c.env c.O props fs = true) (p : PropDef) (hp : p ∈ props) :
-    (objMember c.env c.O f props fs p = .ok none → ∃ k, p.path = [k] ∧ aget k fs = none) ∧
-    (∀ e, objMember c.env c.O f props fs p = .ok (some e) → ∃ k v lit t, p.path = [k] ∧
-      e = (p.jsonName, lit, t) ∧ aget k fs = some v ∧ Dec c p.field v t ∧
-      (p.pres == .imp && v.isZero) = false ∧ v.isEmptyColl = false) := by
-  obtain ⟨k, hpk⟩ := propSimple_path p (hsimple p hp)
-  unfold objMember
-  rw [findProp_self props hnames p hp]
-  simp only []
-  cases f with
-  | zero => simp [encField]
-  | succ f' =>
-    rw [encField_single c.env c.O f' p k fs hpk]
-    cases hag : aget k fs with
-    | none =>
-      simp only []
-      exact ⟨fun _ => ⟨k, hpk, hag⟩, fun e h => by cases h⟩
-    | some v =>
-      simp only []
-      cases henc : encValue c.env c.O f' p.field v with
-      | err e => simp
-      | panic w => simp
-      | ok t =>
-        simp only []
-        constructor
-        · intro h
-          obtain ⟨lit, t', _, _, hr⟩ := member_ok_inv _ _ _ h
-          cases hr
-        · intro e h
-          obtain ⟨lit, t', _, ht, hr⟩ := member_ok_inv _ _ _ h
-          cases ht; cases hr
-          obtain ⟨p', hfp, hvok, hz⟩ := fieldsOk_mem _ _ props fs hfok k v (aget_mem k v fs hag)
-          have hpp : p' = p := by
-            have := findPath_self props hpaths p hp
-            rw [hpk] at this
-            rw [this] at hfp; cases hfp; rfl
-          subst hpp
-          refine ⟨k, v, lit, t, hpk, rfl, hag, ?_, hz, valOk_not_emptyColl _ _ _ _ hvok⟩
-          exact (ih f' (by omega)).val p'.field v t (propSimple_field p' (hsimple p' hp)) hvok henc
-
-theorem RT_obj (c : Cfg) (hs : c.env.simple = true) (L : OracleLaws c.O) (f : Nat)
-    (ih : ∀ f' < f + 1, RT c f') :
-    ∀ props fs t, rootSimple (.object props) = true →
-      (∀ p ∈ props, isValidUtf8 p.jsonName = true) → asorted fs = true →
-      fieldsOk c.env c.O props fs = true → encObjectBody c.env c.O (f + 1) props fs = .ok t →
-      ∃ ms S, t = .obj ms ∧
-        decObjMembers c props ms { m := [], seen := [] } = .ok ({ m := fs, seen := S }, .closed) := by
-  intro props fs t hroot _ hsort hfok henc
-  simp only [rootSimple, Bool.and_eq_true, decide_eq_true_eq] at hroot
-  obtain ⟨⟨hall, hnames⟩, hpaths⟩ := hroot
-  have hsimple : ∀ p ∈ props, propSimple p = true := by
-    intro p hp
-    have := List.all_eq_true.mp hall p hp
-    simp only [Bool.and_eq_true] at this; exact this.1
-  have hgrp : ∀ p ∈ props, p.group = none := by
-    intro p hp
-    have := List.all_eq_true.mp hall p hp
-    simp only [Bool.and_eq_true] at this
-    simpa using this.2
-  have henc' : (match props.foldr (fun p acc => consMember (objMember c.env c.O f props fs p) acc)
-      (.ok (.nil .closed)) with
-      | .ok ms => Outcome.ok (PTree.obj ms)
-      | .err e => .err e
-      | .panic w => .panic w) = .ok t := by
-    simp only [encObjectBody] at henc
-    exact henc
-  cases hr : props.foldr (fun p acc => consMember (objMember c.env c.O f props fs p) acc)
-      (.ok (.nil .closed)) with
-  | err e => simp [hr] at henc'
-  | panic w => simp [hr] at henc'
-  | ok ms =>
-    simp only [hr] at henc'; cases henc'
-    obtain ⟨es, hall', rfl⟩ := foldr_consMember_inv _ props ms hr
-    have hinv := objMember_inv c hs L f ih props fs hnames hpaths hsimple hfok
-    obtain ⟨seen', hdec⟩ := decObjMembers_props c props fs hnames hgrp hsort
-      (objMember c.env c.O f props fs) (fun p hp => (hinv p hp).1) (fun p hp => (hinv p hp).2)
-      props es { m := [], seen := [] } [] hall' (fun _ h => h) hnames hpaths
-      (fun _ _ => by simp) (fun _ _ _ _ => by simp) (by simp [filterKeys_nil])
-    refine ⟨membersOf es, seen', rfl, ?_⟩
-    rw [hdec]
-    have hfull : filterKeys (keysOf props []) fs = fs := by
-      apply filterKeys_all
-      intro k hk
-      obtain ⟨kv, hkv, rfl⟩ := List.mem_map.mp hk
-      obtain ⟨p', hfp, _, _⟩ := fieldsOk_mem _ _ props fs hfok kv.1 kv.2 hkv
-      have hmem := List.mem_of_find?_eq_some hfp
-      have hpath : p'.path = [kv.1] := by simpa using List.find?_some hfp
-      exact mem_keysOf props [] p' kv.1 hmem hpath
-    rw [hfull]
-
-
-theorem filter_unique {β γ : Type} [BEq γ] [LawfulBEq γ] (f : β → γ) :
-    ∀ (l : List β), (l.map f).Nodup → ∀ x ∈ l, l.filter (fun y => f y == f x) = [x] := by
-  intro l
-  induction l with
-  | nil => intro _ x hx; cases hx
-  | cons a t ih =>
-    intro hnd x hx
-    simp only [List.map_cons, List.nodup_cons] at hnd
-    rcases List.mem_cons.mp hx with rfl | hx'
-    · rw [List.filter_cons]
-      simp only [beq_self_eq_true, if_true]
-      congr 1
-      apply List.filter_eq_nil_iff.mpr
-      intro y hy
-      have : f y ≠ f x := by
-        intro e; exact hnd.1 (e ▸ List.mem_map.mpr ⟨y, hy, rfl⟩)
-      simpa using this
-    · have hne : f a ≠ f x := by
-        intro e; exact hnd.1 (e ▸ List.mem_map.mpr ⟨x, hx', rfl⟩)
-      rw [List.filter_cons]
-      have : (f a == f x) = false := by simpa using hne
-      rw [this]
-      exact ih hnd.2 x hx'
-
-theorem foldl_nil_fixed {β : Type} (step : Fields → β → Fields) (h : ∀ b, step [] b = []) :
-    ∀ (l : List β), l.foldl step [] = [] := by
-  intro l
-  induction l with
-  | nil => rfl
-  | cons b t ih => rw [List.foldl_cons, h b]; exact ih
-
-theorem clearGroup_nil (props : List PropDef) (pfx : List Nat) (g : Option Nat) (keep : Nat) :
-    clearGroup props pfx g keep [] = [] := by
-  unfold clearGroup
-  cases g with
-  | none => rfl
-  | some gi =>
-    simp only []
-    apply foldl_nil_fixed
-    intro p
-    split
-    · split
-      · split <;> rfl
-      · rfl
-    · rfl
-
-theorem typeKey_lit : ∃ lit, appendString typeKey = .ok lit :=
-  (appendString_total typeKey).2.1 (by decide)
-
-theorem RT_one (c : Cfg) (hs : c.env.simple = true) (L : OracleLaws c.O) (f : Nat)
-    (ih : ∀ f' < f + 1, RT c f') :
-    ∀ ops fs t, rootSimple (.oneof ops) = true →
-      (∀ p ∈ ops, isValidUtf8 p.jsonName = true) → asorted fs = true →
-      fieldsOk c.env c.O ops fs = true → fs.length ≤ 1 →
-      encOneofBody c.env c.O (f + 1) ops fs = .ok t →
-      ∃ ms st' found ct, t = .obj ms ∧
-        decOneofMembers c ops ms { m := [], seen := [] } [] none = .ok (st', found, ct, .closed) ∧
-        st'.m = fs ∧ oneofPost ops found ct fs = .ok none := by
-  intro ops fs t hroot hutf _ hfok hlen henc
-  simp only [rootSimple, Bool.and_eq_true, decide_eq_true_eq, Bool.not_eq_true'] at hroot
-  obtain ⟨⟨⟨hall, hnames⟩, hpaths⟩, hnotype⟩ := hroot
-  have hsimple : ∀ p ∈ ops, propSimple p = true := fun p hp => List.all_eq_true.mp hall p hp
-  -- the filter of set members, as a predicate on paths
-  have hpred : ∀ q ∈ ops, oneofSet c.env (f + 1) ops fs q =
-      (match q.path with | [k] => (aget k fs).isSome | _ => false) := by
-    intro q hq
-    unfold oneofSet
-    rw [findProp_self ops hnames q hq]
-    obtain ⟨k, hk⟩ := propSimple_path q (hsimple q hq)
-    simp only [hasProp_single c.env f q k fs hk, hk]
-  simp only [encOneofBody] at henc
-  rw [List.filter_congr hpred] at henc
-  cases fs with
-  | nil =>
-    have hnil : ops.filter (fun q => match q.path with | [k] => (aget k ([] : Fields)).isSome | _ => false) = [] := by
-      apply List.filter_eq_nil_iff.mpr
-      intro q _
-      split <;> simp [aget]
-    rw [hnil] at henc
-    simp only [] at henc
-    cases henc
-    exact ⟨.nil .closed, { m := [], seen := [] }, [], none, rfl, by simp [decOneofMembers], rfl,
-      by simp [oneofPost]⟩
-  | cons kv rest =>
-    obtain ⟨k, v⟩ := kv
-    have hrest : rest = [] := by
-      cases rest with
-      | nil => rfl
-      | cons a b => simp at hlen
-    subst hrest
-    obtain ⟨p, hfp, hvok, hz⟩ := fieldsOk_mem _ _ ops _ hfok k v List.mem_cons_self
-    have hpm := List.mem_of_find?_eq_some hfp
-    have hpk : p.path = [k] := by simpa using List.find?_some hfp
-    have hfilt : ops.filter (fun q => match q.path with | [k'] => (aget k' [(k, v)]).isSome | _ => false) = [p] := by
-      rw [← filter_unique (·.path) ops hpaths p hpm]
-      apply List.filter_congr
-      intro q hq
-      obtain ⟨kq, hkq⟩ := propSimple_path q (hsimple q hq)
-      simp only [hkq, hpk, aget]
-      by_cases hk : kq = k
-      · simp [hk]
-      · simp [hk]
-    rw [hfilt] at henc
-    simp only [findProp_self ops hnames p hpm] at henc
-    obtain ⟨nlit, hnl⟩ := strNode_ok p.jsonName (hutf p hpm)
-    obtain ⟨tlit, htl⟩ := typeKey_lit
-    simp only [hnl, htl] at henc
-    cases f with
-    | zero => simp [encField] at henc
-    | succ f' =>
-      rw [encField_single c.env c.O f' p k _ hpk] at henc
-      simp only [aget, if_true] at henc
-      cases hev : encValue c.env c.O f' p.field v with
-      | err e => simp [hev] at henc
-      | panic w => simp [hev] at henc
-      | ok t' =>
-        simp only [hev] at henc
-        cases hmem : member p.jsonName (.ok t') with
-        | err e => simp [hmem] at henc
-        | panic w => simp [hmem] at henc
-        | ok r =>
-          obtain ⟨lit, t'', _, ht, hr⟩ := member_ok_inv _ _ _ hmem
-          cases ht; subst hr
-          simp only [hmem] at henc
-          cases henc
-          have hdec := (ih f' (by omega)).val p.field v t' (propSimple_field p (hsimple p hpm)) hvok hev
-          have hne : p.jsonName ≠ ascii "!type" := by
-            intro e
-            have : typeKeyBytes ∈ ops.map (·.jsonName) := by
-              rw [typeKeyBytes, ← e]; exact List.mem_map.mpr ⟨p, hpm, rfl⟩
-            have hc : (ops.map (·.jsonName)).contains typeKeyBytes = true := by simpa using this
-            rw [hnotype] at hc; cases hc
-          have hstep := hdec.prop ops p k { m := [], seen := [] } rfl hpk (by simp) rfl
-            (groupBusy_nil ops p k hpk)
-          have hm : updPath ops p (some v) [] = [(k, v)] := by
-            rw [updPath_single ops p k v [] hpk, clearGroup_nil,
-              setLeaf_store _ _ _ _ hz (valOk_not_emptyColl _ _ _ _ hvok)]
-            rfl
-          refine ⟨_, { m := [(k, v)], seen := [p.jsonName] }, [p.jsonName], some p.jsonName, rfl, ?_, rfl, ?_⟩
-          · simp only [] at hstep
-            rw [hm] at hstep
-            simp [decOneofMembers, typeKey, hne, findProp_self ops hnames p hpm, hstep]
-          · simp [oneofPost]
-
-/-- **structure-level round trip**, all fuels -/
-theorem RT_all (c : Cfg) (hs : c.env.simple = true) (L : OracleLaws c.O) : ∀ f, RT c f := by
-  intro f
-  induction f using Nat.strongRecOn with
-  | _ f ih =>
-    cases f with
-    | zero =>
-      refine ⟨?_, ?_, ?_⟩
-      · intro fld v t _ _ h; simp [encValue] at h
-      · intro props fs t _ _ _ _ h; simp [encObjectBody] at h
-      · intro ops fs t _ _ _ _ _ h; simp [encOneofBody] at h
-    | succ f =>
-      exact ⟨RT_val c hs L f ih, RT_obj c hs L f ih, RT_one c hs L f ih⟩
-
-
-/-- **Round trip on trees**: whatever tree the encoder produces for a representable message of a
-simple environment, the decoder maps back to exactly that message. -/
-theorem roundtrip_tree (c : Cfg) (hs : c.env.simple = true) (L : OracleLaws c.O) (root : String)
-    (m : Fields) (t : PTree)
-    (hok : valOk c.env c.O (.object root) (.msg m) = true ∨ valOk c.env c.O (.oneof root) (.msg m) = true)
-    (henc : encodeTree c.env c.O root (.msg m) = .ok t) : decRootTree c root t = .ok m := by
-  unfold encodeTree at henc
-  generalize encFuel (.msg m) = f at henc
-  cases f with
-  | zero => simp [encRoot] at henc
-  | succ f =>
-    rcases hok with hok | hok
-    · obtain ⟨fs, props, hv, hfind, hsort, hfok⟩ := valOk_object _ _ root _ hok
-      cases hv
-      simp only [encRoot, hfind] at henc
-      obtain ⟨ms, S, rfl, hdec⟩ := (RT_all c hs L f).obj props m t
-        (find_rootSimple c.env hs root _ hfind)
-        (find_names_utf8 c.env hs root props (Or.inl hfind)) hsort hfok henc
-      simp [decRootTree, hfind, hdec, finishObject, closeOk]
-    · obtain ⟨fs, ops, hv, hfind, hsort, hfok, hlen⟩ := valOk_oneof _ _ root _ hok
-      cases hv
-      simp only [encRoot, hfind] at henc
-      obtain ⟨ms, st', found, ct, rfl, hdec, hm, hpost⟩ := (RT_all c hs L f).one ops m t
-        (find_rootSimple c.env hs root _ hfind)
-        (find_names_utf8 c.env hs root ops (Or.inr hfind)) hsort hfok hlen henc
-      simp [decRootTree, hfind, hdec, finishOneof, closeOk, hpost, applyPost, hm]
 
 end J5V.Codec
